@@ -412,6 +412,9 @@ class Interp:
                 lt = self.less(ia[i], ib[i], True)
                 res = zor(lt, zand(eq, res))
             return res
+        for s_ in (a, b):
+            if isinstance(s_, Struct) and s_.cls in C.STRUCT_LESS:
+                return C.STRUCT_LESS[s_.cls](self, a, b, strict)
         if isinstance(a, (int, float)) and isinstance(b, (int, float)):
             return a < b if strict else a <= b
         if isinstance(a, str) and isinstance(b, str):
